@@ -7,13 +7,25 @@ from common import rel
 
 TRUSTED_BASE = [
     "the shift / conjugation / fold theorems are about the model; the tie to the code is the per-estimator correspondence (own "
-    "properties) plus, here, the correspondence on MODULATED inputs (periodogram, Burg, Yule-Walker) and the class-glue correspondence",
+    "properties) plus, here, the correspondence on MODULATED inputs (periodogram, Burg, Yule-Walker, MA, minimum variance, "
+    "correlogram from the data and from the library's lags, multitaper unity / eigen) and the class-glue correspondence",
     "SVD-based estimators: relative to the SVD contract; checked by the oracle",
+    "the oracle's references are numpy expressions of the statement itself: np.roll(p0, m), p0[(-k) % NFFT], 2 * pc[:L] with "
+    "L = NFFT/2+1 (even) or (NFFT+1)/2 (odd), and the lengths NFFT / L; both sides of each relation come from the library",
 ]
 PARTIAL = ["MUSIC/EV relative to the SVD parameter"]
-ASSUMPTIONS = ["orders in domain; tolerance 1e-6 relative (1e-5 for covariance/ARMA least-squares paths)"]
-RULE = ("complex/real data x integer shifts m (all residues for small NFFT, random otherwise) x 14 class variants x NFFT even/odd; "
-        "conjugation, time reversal, real-vs-declared-complex")
+ASSUMPTIONS = [
+    "orders in domain (pcovar order <= N/2-1, pmodcovar order <= N/2-1, pburg order <= N-2, lag < N, NW < N/2; the underdetermined "
+    "pcovar order N/2 and pmodcovar order 2N/3 are not generated); tolerance 1e-6 relative (1e-5 for covariance / ARMA least-squares "
+    "and MUSIC / EV paths), max-norm relative to the peak AND per bin relative to the bin (bins above 1e-12 of the peak)",
+    "NFFT admissible for the class (classes.min_nfft): >= N for periodogram / multitaper, 2*lag+1, 2*order, model order + 1",
+    "pburg order-selection criteria AIC, AICc, KIC, AKICc, FPE, MDL ('CAT' is rejected by the constructor and is not generated)",
+]
+RULE = ("complex/real data x integer shifts m (all residues for small NFFT; 0, NFFT/2, beyond one period both ways, random otherwise) x "
+        "14 class variants x NFFT even/odd, NFFT <, =, > N, at the admissibility boundary, None and 'nextpow2'; N in 2..5, 12, 20, 24, 32, "
+        "33, 40, 41, 48, 107, 300; orders random and at the boundary of the domain; ARMA P <= 4 and P > 4; constructor options (Burg "
+        "criteria, Yule-Walker unbiased, MUSIC/EV criteria / threshold, multitaper supplied tapers / default k); fs=250 with "
+        "scale_by_freq; integer-array and list input; conjugation, time reversal, real-vs-declared-complex (with output lengths)")
 
 TIMEREV = ["Periodogram", "pcorrelogram", "pyule", "pburg", "pmodcovar", "MT-unity", "MT-eigen", "MT-adapt", "pminvar"]
 REAL_FOLD = ["pburg", "pyule", "pcovar", "pmodcovar", "parma", "pma", "pminvar", "MT-unity", "MT-eigen", "MT-adapt"]
@@ -22,16 +34,75 @@ REAL_FOLD = ["pburg", "pyule", "pcovar", "pmodcovar", "parma", "pma", "pminvar",
 _CFG = {}
 
 
+def _set_cfg(p):
+    """the configuration of the case under evaluation, read by `_psd`: estimator parameters, sampling / scaling options and
+    the NFFT argument as handed to the constructor (an integer, None or 'nextpow2')"""
+    _CFG["cfg"] = p.get("cfg")
+    _CFG["fs"] = float(p.get("fs", 1.0))
+    _CFG["scale"] = bool(p.get("scale", False))
+    _CFG["nfft_spec"] = p.get("nfft_spec")
+
+
+def _clear_cfg():
+    _CFG["cfg"] = None
+    _CFG["fs"] = 1.0
+    _CFG["scale"] = False
+    _CFG["nfft_spec"] = None
+
+
+def _make(cls, x, nfft, fs, scale, cfg):
+    """`classes.make`, plus the constructor options it does not pass: pyule(norm=...), pmusic/pev with NSIG=None and a
+    criterion or a threshold, MultiTapering with the tapers / concentrations supplied by the caller"""
+    s = C.sp()
+    kw = dict(NFFT=nfft, sampling=fs, scale_by_freq=scale)
+    if cfg:
+        if cls == "pyule" and "norm" in cfg:
+            return s.pyule(x, cfg["order"], norm=cfg["norm"], **kw)
+        if cls in ("pmusic", "pev") and cfg.get("nsig") is None and ("eig_criteria" in cfg or "threshold" in cfg):
+            f = s.pmusic if cls == "pmusic" else s.pev
+            if "threshold" in cfg:
+                return f(x, cfg["order"], NSIG=None, threshold=cfg["threshold"], **kw)
+            return f(x, cfg["order"], NSIG=None, criteria=cfg["eig_criteria"], **kw)
+        if cls.startswith("MT-") and cfg.get("supplied"):
+            from spectrum.mtm import dpss
+            v, e = dpss(len(x), cfg["NW"], cfg["k"])
+            return s.MultiTapering(x, e=e, v=v, method=cls[3:], **kw)
+    return C.make(cls, x, nfft, fs, scale, cfg)
+
+
 def _psd(cls, x, nfft):
-    return np.asarray(C.make(cls, x, nfft, 1.0, False, _CFG.get("cfg")).psd)
+    spec = _CFG.get("nfft_spec")
+    arg = nfft if spec is None else {"none": None, "nextpow2": "nextpow2"}[spec]
+    return np.asarray(_make(cls, x, arg, _CFG.get("fs", 1.0), _CFG.get("scale", False), _CFG.get("cfg")).psd)
+
+
+BIN_FLOOR = 1e-12      # the per-bin comparison uses the same tolerance as the max-norm one, on bins above this share of the peak
+
+
+def binrel(a, b):
+    """largest per-bin relative difference |a-b|/max(|a|,|b|) over the bins where both values exceed BIN_FLOOR of the peak"""
+    a = np.asarray(a)
+    b = np.asarray(b)
+    if a.shape != b.shape or np.iscomplexobj(a) or np.iscomplexobj(b):
+        return float("inf")
+    if a.size == 0:
+        return 0.0
+    if not (np.all(np.isfinite(a)) and np.all(np.isfinite(b))):
+        return float("inf")
+    aa, bb = np.abs(a), np.abs(b)
+    peak = max(float(np.max(aa)), float(np.max(bb)))
+    mk = (aa > BIN_FLOOR * peak) & (bb > BIN_FLOOR * peak)
+    if peak == 0.0 or not np.any(mk):
+        return 0.0
+    return float(np.max(np.abs(a - b)[mk] / np.maximum(aa, bb)[mk]))
 
 
 def oracle_shift(p):
-    _CFG["cfg"] = p.get("cfg")
+    _set_cfg(p)
     try:
         return _oracle_shift(p)
     finally:
-        _CFG["cfg"] = None
+        _clear_cfg()
 
 
 def _oracle_shift(p):
@@ -42,73 +113,152 @@ def _oracle_shift(p):
     p1 = _psd(cls, y, nfft)
     tol = 1e-5 if cls in ("pcovar", "pmodcovar", "parma", "pmusic", "pev") else 1e-6
     out = []
+    if p0.ndim != 1 or len(p0) != nfft or len(p0) != C.expected_len(False, nfft):
+        out.append("%s (NFFT=%d): the two-sided estimate of complex data has %s values, not NFFT" % (cls, nfft, p0.shape))
     if p1.shape != p0.shape or np.iscomplexobj(p1) or rel(p1, np.roll(p0, m)) > tol:
         out.append("%s (NFFT=%d): multiplying sample n by exp(2 pi i m n/NFFT), m=%d, does not rotate the two-sided estimate by m bins "
                    "(rel err %.2e)" % (cls, nfft, m, rel(p1, np.roll(p0, m)) if p1.shape == p0.shape and not np.iscomplexobj(p1) else float("inf")))
+    elif binrel(p1, np.roll(p0, m)) > tol:
+        out.append("%s (NFFT=%d): modulated data, m=%d: some bin of the rotated estimate differs (per-bin rel err %.2e)" % (
+            cls, nfft, m, binrel(p1, np.roll(p0, m))))
     pc = _psd(cls, np.conj(x), nfft)
     mir = p0[(-np.arange(len(p0))) % len(p0)]
     if pc.shape != p0.shape or rel(pc, mir) > tol:
         out.append("%s (NFFT=%d): conjugating the data does not mirror the estimate (bin k <-> -k)" % (cls, nfft))
+    elif binrel(pc, mir) > tol:
+        out.append("%s (NFFT=%d): conjugated data: some bin of the mirrored estimate differs (per-bin rel err %.2e)" % (
+            cls, nfft, binrel(pc, mir)))
     if cls in TIMEREV:
         pr = _psd(cls, np.conj(x[::-1]), nfft)
         if pr.shape != p0.shape or rel(pr, p0) > tol:
             out.append("%s (NFFT=%d): conjugated time-reversed data give a different spectrum (rel err %.2e)" % (
                 cls, nfft, rel(pr, p0) if pr.shape == p0.shape else float("inf")))
+        elif binrel(pr, p0) > tol:
+            out.append("%s (NFFT=%d): conjugated time-reversed data: some bin differs (per-bin rel err %.2e)" % (
+                cls, nfft, binrel(pr, p0)))
     return out
 
 
 def oracle_real(p):
-    _CFG["cfg"] = p.get("cfg")
+    _set_cfg(p)
     try:
         return _oracle_real(p)
     finally:
-        _CFG["cfg"] = None
+        _clear_cfg()
+
+
+def _as_input(xr, how):
+    """the object handed to the constructor for the real record: the array itself, or a plain Python list of its values"""
+    if how == "list":
+        return xr.tolist()
+    return xr
 
 
 def _oracle_real(p):
     cls, xr, nfft = p["cls"], np.asarray(p["x"]), p["nfft"]
+    how = p.get("input")
     out = []
     tol = 1e-5 if cls in ("pcovar", "pmodcovar", "parma") else 1e-6
-    pr = _psd(cls, xr, nfft)
+    pr = _psd(cls, _as_input(xr, how), nfft)
     if cls in REAL_FOLD:
         pc = _psd(cls, xr.astype(complex), nfft)
-        L = len(pr)
-        if rel(pr, 2 * pc[:L]) > tol:
-            out.append("%s (NFFT=%d): real one-sided estimate is not twice the first half of the two-sided estimate of the same samples "
-                       "declared complex (median ratio %.4f)" % (cls, nfft, float(np.median(pr / pc[:L]))))
-        if rel(pc[1:], pc[1:][::-1]) > tol:
-            out.append("%s (NFFT=%d): two-sided estimate of real samples is not symmetric" % (cls, nfft))
+        L = C.expected_len(True, nfft)
+        if pr.ndim != 1 or len(pr) != L:
+            out.append("%s (NFFT=%d): the one-sided estimate of real data has %s values, expected %d" % (cls, nfft, pr.shape, L))
+        if pc.ndim != 1 or len(pc) != nfft:
+            out.append("%s (NFFT=%d): the two-sided estimate of the samples declared complex has %s values, not NFFT" % (
+                cls, nfft, pc.shape))
+        if not out:
+            if rel(pr, 2 * pc[:L]) > tol:
+                out.append("%s (NFFT=%d): real one-sided estimate is not twice the first half of the two-sided estimate of the same samples "
+                           "declared complex (median ratio %.4f)" % (cls, nfft, float(np.median(pr / pc[:L]))))
+            elif binrel(pr, 2 * pc[:L]) > tol:
+                out.append("%s (NFFT=%d): real one-sided estimate: some bin is not twice the two-sided one (per-bin rel err %.2e)" % (
+                    cls, nfft, binrel(pr, 2 * pc[:L])))
+            if rel(pc[1:], pc[1:][::-1]) > tol:
+                out.append("%s (NFFT=%d): two-sided estimate of real samples is not symmetric" % (cls, nfft))
+            elif binrel(pc[1:], pc[1:][::-1]) > tol:
+                out.append("%s (NFFT=%d): two-sided estimate of real samples: some bin k differs from bin -k (per-bin rel err %.2e)" % (
+                    cls, nfft, binrel(pc[1:], pc[1:][::-1])))
     if cls in TIMEREV:
-        prr = _psd(cls, xr[::-1].copy(), nfft)
+        prr = _psd(cls, _as_input(xr[::-1].copy(), how), nfft)
         if rel(prr, pr) > tol:
             out.append("%s (NFFT=%d): time-reversed real data give a different spectrum" % (cls, nfft))
+        elif binrel(prr, pr) > tol:
+            out.append("%s (NFFT=%d): time-reversed real data: some bin differs (per-bin rel err %.2e)" % (cls, nfft, binrel(prr, pr)))
     return out
 
 
 # correspondence on modulated inputs
 
-def impl_mod(p):
-    sp = C.sp()
+def _modulated(p):
     x = np.asarray(p["x"])
     n = np.arange(len(x))
-    y = x * np.exp(2j * np.pi * p["m"] * n / p["nfft"])
-    if p["fn"] == "burg":
+    return x * np.exp(2j * np.pi * p["m"] * n / p["nfft"])
+
+
+def _c(v):
+    return np.asarray(v).astype(complex).ravel()
+
+
+def _corr_window(name, lag):
+    from spectrum.window import Window
+    return np.asarray(Window(2 * lag + 1, name).data)[lag + 1:]
+
+
+def _tapers(N, NW, k):
+    from spectrum.mtm import dpss
+    v, e = dpss(N, NW, k)
+    return np.asarray(v), np.asarray(e)
+
+
+def impl_mod(p):
+    sp = C.sp()
+    y = _modulated(p)
+    fn = p["fn"]
+    if fn == "burg":
         a, rho, k = sp.arburg(y, p["order"])
         return [np.asarray(a, dtype=complex), np.array([rho], dtype=complex), np.asarray(k, dtype=complex)]
-    if p["fn"] == "aryule":
+    if fn == "aryule":
         a, rho, k = sp.aryule(y, p["order"])
         return [np.asarray(a, dtype=complex), np.array([rho], dtype=complex), np.asarray(k, dtype=complex)]
+    if fn == "ma":
+        b, rho = sp.ma(y, p["Q"], p["M"])
+        return [_c(b), _c([rho])]
+    if fn == "minvar":
+        psd, A, k = sp.minvar(y, p["order"], sampling=p["fs"], NFFT=p["nfft"])
+        return [np.asarray(psd), _c(A), _c(k)]
+    if fn in ("corrgram", "corrgramd"):
+        return [np.asarray(sp.CORRELOGRAMPSD(y, None, lag=p["lag"], window=p["window"], NFFT=p["nfft"]))]
+    if fn in ("mtm-unity", "mtm-eigen"):
+        Sk, w, ev = sp.pmtm(y, NW=p["NW"], k=p["k"], NFFT=p["nfft"], method=fn[4:], show=False)
+        Sk = np.asarray(Sk)
+        P = sp.MultiTapering(y, NW=p["NW"], k=p["k"], NFFT=p["nfft"], method=fn[4:], scale_by_freq=False)
+        return [Sk[i, :] for i in range(Sk.shape[0])] + [np.asarray(w).ravel(), np.asarray(P.psd)]
     return [np.asarray(sp.speriodogram(y, NFFT=p["nfft"], detrend=False, scale_by_freq=False, window="hamming"))]
 
 
 def model_mod(p):
-    x = np.asarray(p["x"])
-    n = np.arange(len(x))
-    y = x * np.exp(2j * np.pi * p["m"] * n / p["nfft"])
-    if p["fn"] == "burg":
+    y = _modulated(p)
+    fn = p["fn"]
+    if fn == "burg":
         return ("F", proto.request("burg", "F", [p["order"], "none"], [y]))
-    if p["fn"] == "aryule":
+    if fn == "aryule":
         return ("F", proto.request("aryule", "F", [p["order"], "biased"], [y]))
+    if fn == "ma":
+        return ("F", proto.request("ma", "F", [p["Q"], p["M"]], [y]))
+    if fn == "minvar":
+        return ("F", proto.request("minvarx", "F", [p["order"], p["nfft"]], [y, [p["fs"]]]))
+    if fn == "corrgramd":
+        # the lags are computed by the model from the modulated data (CORRELOGRAMPSD's default norm is 'unbiased')
+        return ("F", proto.request("corrgramd", "F", [p["lag"], p["nfft"], "unbiased"], [y, y, _corr_window(p["window"], p["lag"])]))
+    if fn == "corrgram":
+        # the lags 0..lag come from the library's other back-end; the model assembles the Hermitian lag sequence and transforms
+        r = np.asarray(C.sp().CORRELATION(y, maxlags=p["lag"], norm="unbiased"))
+        return ("F", proto.request("corrgram", "F", [p["lag"], p["nfft"]], [r, r, _corr_window(p["window"], p["lag"])]))
+    if fn in ("mtm-unity", "mtm-eigen"):
+        v, e = _tapers(len(y), p["NW"], p["k"])
+        return ("F", proto.request("mtm", "F", [fn[4:], p["nfft"]], [y, e, [0.0005]] + [v[:, i] for i in range(v.shape[1])]))
     from spectrum.window import Window
     w = np.asarray(Window(len(y), "hamming").data)
     return ("F", proto.request("sper", "F", [0, p["nfft"]], [y, w]))
@@ -116,12 +266,29 @@ def model_mod(p):
 
 def _key(p):
     x = np.asarray(p["x"])
-    return "%s|%s|%s|%s|%s|%d" % (p.get("cls"), p.get("fn"), p.get("nfft"), p.get("m"), (p.get("cfg") or {}).get("window"),
-                                 hash(x.tobytes()) & 0xFFFFF)
+    cfg = p.get("cfg") or {}
+    extra = "|".join("%s=%s" % (k, p[k]) for k in ("fs", "scale", "nfft_spec", "input", "order", "Q", "M", "lag", "window", "NW", "k")
+                     if k in p)
+    return "%s|%s|%s|%s|%s|%d|%s|%s" % (p.get("cls"), p.get("fn"), p.get("nfft"), p.get("m"), cfg.get("window"),
+                                       hash(x.tobytes()) & 0xFFFFF, sorted((k, str(v)) for k, v in cfg.items()), extra)
 
 
 def _tags(p):
-    return ["cls:%s" % p.get("cls", "-"), "fn:%s" % p.get("fn", "-"), "nfft:" + ("odd" if p["nfft"] % 2 else "even")]
+    x = np.asarray(p["x"])
+    N = len(x)
+    nfft = p["nfft"]
+    t = ["cls:%s" % p.get("cls", "-"), "fn:%s" % p.get("fn", "-"), "nfft:" + ("odd" if nfft % 2 else "even"),
+         "nfft-vs-N:" + ("<" if nfft < N else "=" if nfft == N else ">"),
+         "N:" + ("<=5" if N <= 5 else "<=24" if N <= 24 else "<=48" if N <= 48 else "<=107" if N <= 107 else ">=256")]
+    if p.get("scale"):
+        t.append("fs=%g,scale_by_freq" % p.get("fs", 1.0))
+    if p.get("nfft_spec"):
+        t.append("NFFT=" + p["nfft_spec"])
+    if p.get("input") or x.dtype.kind in "iu":
+        t.append("input:%s/%s" % (p.get("input", "array"), x.dtype.kind))
+    if p.get("tag"):
+        t.append("family:" + p["tag"])
+    return t
 
 
 KINDS = {
@@ -129,6 +296,220 @@ KINDS = {
     "real": {"oracle": oracle_real, "key": _key, "tags": _tags},
     "mod": {"impl": impl_mod, "model": model_mod, "rtol": 1e-7, "atol": 1e-300, "key": _key, "tags": _tags},
 }
+
+
+def _cx(nrng, N):
+    n = np.arange(N)
+    return nrng.standard_normal(N) + 1j * nrng.standard_normal(N) + 2 * np.exp(2j * np.pi * 0.11 * n) + np.exp(-2j * np.pi * 0.3 * n)
+
+
+def _rx(nrng, N):
+    return nrng.standard_normal(N) + np.cos(0.9 * np.arange(N))
+
+
+def _real_checked(cls):
+    return cls in REAL_FOLD or cls in TIMEREV
+
+
+PARMA_BIG = [(5, 2, 14), (5, 5, 14), (6, 8, 20), (8, 3, 20), (5, 7, 12)]      # P > 4: arma_estimate takes the arcovar branch
+BURG_CRITERIA = ["AIC", "AICc", "KIC", "AKICc", "FPE", "MDL"]
+NO_NFFT_BELOW_N = ["Periodogram", "MT-unity", "MT-eigen", "MT-adapt"]
+
+
+def _tiny_cfg(cls, N):
+    """order / lag 1 configurations (pminvar order 2, pma Q=1 M=2, MUSIC/EV P=2 NSIG=1) for records of 2..5 samples, or None when
+    the record is shorter than the class's documented domain allows (pburg order <= N-2, covariance methods order <= N/2-1,
+    lag < N, NW < N/2, 2(N-P) > P-1)"""
+    if cls == "Periodogram":
+        return {"window": ["hamming", "rectangular"][N % 2]}
+    if cls == "pcorrelogram":
+        return {"lag": 1, "window": "hamming"}
+    if cls == "pyule":
+        return {"order": 1}
+    if cls == "pburg":
+        return {"order": 1} if N >= 3 else None
+    if cls in ("pcovar", "pmodcovar"):
+        return {"order": 1} if N >= 4 else None
+    if cls == "parma":
+        return {"order": 1, "Q": 1, "lag": 3} if N >= 4 else None
+    if cls == "pma":
+        return {"Q": 1, "M": 2} if N >= 3 else None
+    if cls == "pminvar":
+        return {"order": 2} if N >= 4 else None
+    if cls in ("pmusic", "pev"):
+        return {"order": 2, "nsig": 1} if N >= 3 else None
+    if cls.startswith("MT-"):
+        return {"NW": 1.0 if N == 3 else 1.5, "k": 2} if N >= 3 else None
+    return None
+
+
+def _gen_closure(nrng, tier):
+    """cases added after the coverage audit: P > 4 ARMA, constructor options, NFFT <= N and at the admissibility boundary,
+    NFFT=None / 'nextpow2', boundary orders, odd / tiny / long records, sampling and scale_by_freq, integer and list input,
+    special shifts (0, NFFT/2, beyond one period)"""
+    quick = tier == "quick"
+    both = (64, 65)
+    # 1. ARMA with P > 4
+    for i, (P_, Q_, lag_) in enumerate(PARMA_BIG):
+        cfg = {"order": P_, "Q": Q_, "lag": lag_}
+        for nfft in ((both[i % 2],) if quick else both):
+            yield ("shift", {"cls": "parma", "x": _cx(nrng, 48), "nfft": nfft, "m": int(nrng.integers(1, nfft)), "cfg": cfg, "tag": "parma-P>4"})
+            yield ("real", {"cls": "parma", "x": _rx(nrng, 48), "nfft": nfft, "cfg": cfg, "tag": "parma-P>4"})
+    # 2. constructor options that select other code paths
+    opts = [("pburg", {"order": 12, "criteria": c}) for c in BURG_CRITERIA]
+    opts.append(("pyule", {"order": 4, "norm": "unbiased"}))
+    if not quick:
+        opts.append(("pyule", {"order": int(nrng.integers(1, 8)), "norm": "unbiased"}))
+    for cls in ("pmusic", "pev"):
+        opts += [(cls, {"order": 6, "nsig": None, "eig_criteria": "aic"}), (cls, {"order": 6, "nsig": None, "eig_criteria": "mdl"}),
+                 (cls, {"order": 6, "nsig": None, "threshold": 3.0})]
+    xo, xor_ = _cx(nrng, 40), _rx(nrng, 40)
+    for cls, cfg in opts:
+        for nfft in both:
+            yield ("shift", {"cls": cls, "x": xo, "nfft": nfft, "m": int(nrng.integers(1, nfft)), "cfg": cfg, "tag": "option"})
+            if _real_checked(cls):
+                yield ("real", {"cls": cls, "x": xor_, "nfft": nfft, "cfg": cfg, "tag": "option"})
+    # 4a. NFFT = N (periodogram, multitaper: their smallest admissible NFFT), N even and odd
+    for N in (40, 41):
+        xa, xar = _cx(nrng, N), _rx(nrng, N)
+        for cls in NO_NFFT_BELOW_N:
+            yield ("shift", {"cls": cls, "x": xa, "nfft": N, "m": int(nrng.integers(1, N)), "tag": "NFFT=N"})
+            yield ("real", {"cls": cls, "x": xar, "nfft": N, "tag": "NFFT=N"})
+    # 4b. NFFT < N (parametric, correlogram, MUSIC / EV)
+    xb, xbr = _cx(nrng, 40), _rx(nrng, 40)
+    for cls in C.CLASSES:
+        if cls in NO_NFFT_BELOW_N:
+            continue
+        for nfft in (11, 16, 17):
+            yield ("shift", {"cls": cls, "x": xb, "nfft": nfft, "m": int(nrng.integers(1, nfft)), "tag": "NFFT<N"})
+            if _real_checked(cls):
+                yield ("real", {"cls": cls, "x": xbr, "nfft": nfft, "tag": "NFFT<N"})
+    # 4c. NFFT at the admissibility boundary and one above; 4d. NFFT=None and 'nextpow2'
+    for N in ((20,) if quick else (20, 32, 41)):
+        xc, xcr = _cx(nrng, N), _rx(nrng, N)
+        for j, cls in enumerate(C.CLASSES):
+            cfgs = [None] if quick else [None, C.random_cfg(nrng, cls, N, boundary=False)]
+            for cfg in cfgs:
+                lo = C.min_nfft(cls, N, cfg or C.default_cfg(cls, N, True))
+                for nfft in (lo, lo + 1):
+                    q = {"cls": cls, "nfft": nfft, "tag": "NFFT-boundary"}
+                    if cfg:
+                        q["cfg"] = cfg
+                    yield ("shift", dict(q, x=xc, m=int(nrng.integers(1, max(2, nfft)))))
+                    if _real_checked(cls):
+                        yield ("real", dict(q, x=xcr))
+                for spec in ("none", "nextpow2"):
+                    nfft = C.resolved_nfft(xc, None if spec == "none" else spec)
+                    if nfft < lo:
+                        continue
+                    q = {"cls": cls, "nfft": nfft, "nfft_spec": spec, "tag": "NFFT-" + spec}
+                    if cfg:
+                        q["cfg"] = cfg
+                    yield ("shift", dict(q, x=xc, m=int(nrng.integers(1, nfft))))
+                    if _real_checked(cls):
+                        yield ("real", dict(q, x=xcr))
+    # 5a. extreme admissible orders / lags / taper counts
+    for N in (12, 40):
+        for rep in range(1 if quick else 3):
+            xd, xdr = _cx(nrng, N), _rx(nrng, N)
+            for j, cls in enumerate(C.CLASSES):
+                cfg = C.random_cfg(nrng, cls, N, boundary=True)
+                nfft = max(both[(j + rep) % 2], C.min_nfft(cls, N, cfg))
+                yield ("shift", {"cls": cls, "x": xd, "nfft": nfft, "m": int(nrng.integers(1, nfft)), "cfg": cfg, "tag": "order-boundary"})
+                if _real_checked(cls):
+                    yield ("real", {"cls": cls, "x": xdr, "nfft": nfft, "cfg": cfg, "tag": "order-boundary"})
+    # 5b. odd record lengths through every class
+    for N, nffts in ((41, both), (107, (128, 129))):
+        xe, xer = _cx(nrng, N), _rx(nrng, N)
+        for j, cls in enumerate(C.CLASSES):
+            for cfg in ([None] if quick else [None, C.random_cfg(nrng, cls, N, boundary=False)]):
+                for nfft in ((nffts[j % 2],) if quick else nffts):
+                    q = {"cls": cls, "nfft": nfft, "tag": "odd-N"}
+                    if cfg:
+                        q["cfg"] = cfg
+                        q["nfft"] = nfft = max(nfft, C.min_nfft(cls, N, cfg))
+                    yield ("shift", dict(q, x=xe, m=int(nrng.integers(1, nfft))))
+                    if _real_checked(cls):
+                        yield ("real", dict(q, x=xer))
+    # 5c. records of 2..5 samples with the smallest orders
+    for N in (2, 3, 4, 5):
+        for rep in range(1 if quick else 4):
+            xt = nrng.standard_normal(N) + 1j * nrng.standard_normal(N)
+            xtr = nrng.standard_normal(N)
+            for j, cls in enumerate(C.CLASSES):
+                cfg = _tiny_cfg(cls, N)
+                if cfg is None:
+                    continue
+                nfft = max((8, 9)[(j + N + rep) % 2], C.min_nfft(cls, N, cfg))
+                yield ("shift", {"cls": cls, "x": xt, "nfft": nfft, "m": int(nrng.integers(1, nfft)), "cfg": cfg, "tag": "tiny-N"})
+                if _real_checked(cls):
+                    yield ("real", {"cls": cls, "x": xtr, "nfft": nfft, "cfg": cfg, "tag": "tiny-N"})
+    # 5d. long records: real data through every class with a real-data clause; MUSIC / EV beyond 100 rows (truncation branch)
+    NL = 300
+    xlr = nrng.standard_normal(NL) + np.cos(0.9 * np.arange(NL))
+    for cls in C.CLASSES:
+        if _real_checked(cls):
+            for nfft in ((512,) if quick else (512, 301)):
+                yield ("real", {"cls": cls, "x": xlr, "nfft": nfft, "tag": "long"})
+    if quick:
+        xl = _cx(nrng, NL)
+        for cls in ("pmusic", "pev"):
+            yield ("shift", {"cls": cls, "x": xl, "nfft": 512, "m": 5, "tag": "long"})
+    # 6a. sampling frequency and scale_by_freq (a common factor on both sides of every relation)
+    xf, xfr = _cx(nrng, 40), _rx(nrng, 40)
+    for j, cls in enumerate(C.CLASSES):
+        for nfft in ((both[j % 2],) if quick else both):
+            yield ("shift", {"cls": cls, "x": xf, "nfft": nfft, "m": int(nrng.integers(1, nfft)), "fs": 250.0, "scale": True, "tag": "fs-scale"})
+            if _real_checked(cls):
+                yield ("real", {"cls": cls, "x": xfr, "nfft": nfft, "fs": 250.0, "scale": True, "tag": "fs-scale"})
+    # 6b. multitaper with the tapers supplied by the caller, and with the default number of tapers
+    for cls in ("MT-unity", "MT-eigen", "MT-adapt"):
+        for cfg in ({"NW": 2.5, "k": 4, "supplied": True}, {"NW": 2.5, "k": None}):
+            for nfft in both:
+                yield ("shift", {"cls": cls, "x": xf, "nfft": nfft, "m": int(nrng.integers(1, nfft)), "cfg": cfg, "tag": "mt-option"})
+                yield ("real", {"cls": cls, "x": xfr, "nfft": nfft, "cfg": cfg, "tag": "mt-option"})
+    # 6c. integer arrays and plain lists as the real record
+    xi = nrng.integers(-5, 6, 40)
+    xi[0], xi[1] = 3, -2
+    for j, cls in enumerate(REAL_FOLD):
+        nfft = both[j % 2]
+        yield ("real", {"cls": cls, "x": xi.astype(np.int64), "nfft": nfft, "tag": "input"})
+        yield ("real", {"cls": cls, "x": xi.astype(np.int64), "nfft": nfft, "input": "list", "tag": "input"})
+        yield ("real", {"cls": cls, "x": xfr, "nfft": both[(j + 1) % 2], "input": "list", "tag": "input"})
+        if not quick:
+            yield ("real", {"cls": cls, "x": xi.astype(np.int32), "nfft": both[(j + 1) % 2], "tag": "input"})
+    # 7. special shifts: none, half a period, more than one period in either direction; real samples declared complex
+    xm = _cx(nrng, 40)
+    xmr = _rx(nrng, 40).astype(complex)
+    for cls in C.CLASSES:
+        for nfft in both:
+            for m in (0, nfft // 2, nfft + 3, -nfft - 3):
+                yield ("shift", {"cls": cls, "x": xm, "nfft": nfft, "m": m, "tag": "special-m"})
+            yield ("shift", {"cls": cls, "x": xmr, "nfft": nfft, "m": nfft // 2, "tag": "real-as-complex"})
+
+
+MOD_FNS = ["ma", "minvar", "corrgramd", "corrgram", "mtm-unity", "mtm-eigen"]
+
+
+def _gen_mod(nrng, tier):
+    """correspondence of the MA, minimum-variance, correlogram and multitaper functions with the model on modulated inputs"""
+    for i in range(36 if tier == "quick" else 480):
+        fn = MOD_FNS[i % 6]
+        j = i // 6
+        nfft = [32, 33, 48][j % 3]
+        q = {"fn": fn, "x": nrng.standard_normal(24) + 1j * nrng.standard_normal(24), "nfft": nfft, "m": int(nrng.integers(-nfft, nfft))}
+        if fn == "ma":
+            q["Q"] = 1 + (j // 3) % 3
+            q["M"] = q["Q"] + 2 + (j // 9) % 4
+        elif fn == "minvar":
+            q["order"] = 2 + (j // 3) % 5
+            q["fs"] = [1.0, 250.0][(j // 15) % 2]
+        elif fn in ("corrgram", "corrgramd"):
+            q["lag"] = 1 + (j // 3) % 11
+            q["window"] = ["hamming", "rectangular", "hann", "bartlett"][(j // 33) % 4 if tier != "quick" else j % 4]
+        else:
+            q["NW"], q["k"] = [(2.5, 4), (2.0, 3), (3.0, 5)][(j // 3) % 3]
+        yield ("mod", q)
 
 
 def gen(rng, nrng, tier):
@@ -190,3 +571,5 @@ def gen(rng, nrng, tier):
         x = nrng.standard_normal(24) + 1j * nrng.standard_normal(24)
         nfft = [32, 33, 48][i % 3]
         yield ("mod", {"fn": ["burg", "aryule", "sper"][i % 3], "x": x, "nfft": nfft, "m": int(nrng.integers(-nfft, nfft)), "order": 4})
+    yield from _gen_mod(nrng, tier)
+    yield from _gen_closure(nrng, tier)
